@@ -95,6 +95,9 @@ def _make_views():
     class V6(pjrpc.server.ViewMixin, Mixin):
         def own(self):
             return 'tok-view-6-own'
+
+        def list_(self):          # a public name that avoids a keyword / builtin by a trailing underscore
+            return 'tok-view-6-list_'
     views.append(V6)
     return views
 
@@ -102,7 +105,7 @@ def _make_views():
 FUNCS = _make_functions()
 VIEWS = _make_views()
 VIEW_PUBLIC = {0: ['get', 'put', 'stat'], 1: ['get', 'put', 'stat'], 2: ['get', 'put', 'stat', 'only2', 'cached'], 3: ['get', 'put', 'stat', 'extra'],
-               4: ['info', 'get'], 5: ['info', 'get'], 6: ['mixed', 'own']}
+               4: ['info', 'get'], 5: ['info', 'get'], 6: ['mixed', 'own', 'list_']}
 # tokens of view 3: 'get' and 'extra' are its own, 'put' and 'stat' are inherited from view 0
 VIEW3_TOKENS = {'get': 'tok-view-3-get', 'extra': 'tok-view-3-extra', 'put': 'tok-view-0-put', 'stat': 'tok-view-0-stat'}
 
